@@ -223,7 +223,8 @@ def check_dispatch(repo: Repo, rep: Report) -> None:
     rep.saw(SOLVER)
     smod = repo.mod(SOLVER)
     config = Obj(["Config"], default_backend="sugar", name="config")
-    cw = solver_world(repo, pre_env={"config": config})
+    # names solver.py may import from the configuration module: detection answers "z3" here (CFG-3 decides detection itself)
+    cw = solver_world(repo, pre_env={"config": config, "_detect_backend": lambda: "z3", "configuration._detect_backend": lambda: "z3"})
     ev, genv = cw.ev, cw.genv
     made: List[str] = []
 
